@@ -314,7 +314,7 @@ func (g *gen) divisor(t Ty, d int, lConst bool) *Expr {
 		return c
 	}
 	e := g.nonConst(t, d)
-	if g.r.Intn(8) == 0 && !g.stCall {
+	if g.r.Intn(8) == 0 && !g.stCall && !g.stRisky { // at most one operation that may panic per statement: the order of two is unspecified
 		g.stRisky = true
 		return e // may be zero: integer divide by zero at run time
 	}
@@ -361,7 +361,7 @@ func (g *gen) intExpr(t Ty, d int) *Expr {
 
 // index: s[i], mostly in range.
 func (g *gen) index(d int) *Expr {
-	if g.stCall {
+	if g.stCall || g.stRisky {
 		return g.leaf(tUint8)
 	}
 	g.stRisky = true
